@@ -68,6 +68,7 @@ class Frag:
     occ: Optional[Tuple[int, int]] = None   # assign mode: first/last index among the assignments to `target`
     tests: Sequence[str] = ()         # block mode: `ast.unparse(test)` of the top-level `if` statements to take, in order
     outs: Sequence[str] = ()          # block mode: variables whose final values are returned
+    out_kinds: Dict[str, str] = field(default_factory=dict)   # block mode: kind of an output that is not a parameter
     sqrt: bool = False                # adds a parameter `sqrtF : α → α` for math.sqrt / .sqrt()
     consts: Sequence[str] = ()        # names bound once at the top level of the function (`NAME = <expr>`): read from the source
     rename: Dict[str, str] = field(default_factory=dict)   # `ast.unparse(sub-expression)` -> parameter name (e.g. "self._size": "n")
@@ -543,7 +544,8 @@ class Tr:
                 else:
                     outs.append(v.lean)
             return ".ok (" + ", ".join(outs) + ")"
-        tys = " × ".join({"optreal": "Option α", "real": "α", "int": "Int"}[self.f.params.get(o, "optreal")] for o in self.f.outs)
+        tys = " × ".join({"optreal": "Option α", "real": "α", "int": "Int"}[self.f.out_kinds.get(o, self.f.params.get(o, "optreal"))]
+                         for o in self.f.outs)
         body = self.block(stmts, env, fin, "  ")
         return f"def {self.f.name} {sig} : Except String ({tys}) :=\n  {body}\n"
 
